@@ -54,10 +54,14 @@ def valueOK (bt : Nat) (isBool : Bool) (v : Value) : Bool :=
   let (es, _) := elemsOf v
   !es.isEmpty && es.all (scalarOK bt isBool)
 
+/-- an array with exactly one element: for a field without a profile entry (unknown field, developer field) the cell has
+one piece and is read as a scalar — and the decoder too makes a scalar of a one-element payload -/
+def oneElemArray (v : Value) : Bool := (elemsOf v).2 && (elemsOf v).1.length == 1
+
 def fieldOK (m : Message) (f : Field) : Bool :=
   match pfield m.num (fieldNumOf f) with
   | some p => fieldBtOf f == p.bt && valueOK p.bt p.isBool f.value && (elemsOf f.value).2 == p.array
-  | none => valueOK (fieldBtOf f) false f.value
+  | none => valueOK (fieldBtOf f) false f.value && !oneElemArray f.value
 
 /-- the field descriptions of ONE file, in order -/
 def descsOf (file : List Message) : List Desc := (file.filter (·.num == mnFieldDescription)).map descOf
@@ -72,7 +76,8 @@ def devsOK (file : List Message) : Bool :=
   (ds.map fun d => (d.devIdx, d.num)).eraseDups.length == ds.length &&
   file.all fun m => m.devFields.all fun dv =>
     match findDesc ds dv.devIdx dv.num with
-    | some d => (lookupFieldNum m.num d.name).isNone && valueOK d.bt false dv.value && !(d.units == degreesTxt && d.bt == btSint32)
+    | some d => (lookupFieldNum m.num d.name).isNone && valueOK d.bt false dv.value && !oneElemArray dv.value &&
+        !(d.units == degreesTxt && d.bt == btSint32)
     | none => false
 
 /-- the property's own condition: no field written in the file (not flagged as expanded) is the expansion target of a
